@@ -383,6 +383,10 @@ class SimDisk:
         ino = self.files.get(path)
         return None if ino is None else bytes(ino.data)
 
+    def poke(self, path, data):
+        """Another program replaces the file's bytes (not a step)."""
+        self.files[path].data[:] = data
+
     def listing(self):
         return tuple(sorted(p for p in self.files if p != DB_PATH))
 
